@@ -319,3 +319,66 @@ func c01ReadBytesDelivered(c *Ctx) {
 		c.Unresolved("C01.R8", "early returns of doRead (expected the closed / no-bytes / failure returns)")
 	}
 }
+
+// c01H2URLFromReceived (R9): a request forwarded from HTTP/2 to HTTP/2 keeps the target it arrived with.
+// For a request that came from an HTTP/2 downstream the client stream holds a clone of the received *http.Request; its URL
+// is the parsed form of the received :path. A URL composed anew from the path / query variables is not the same target
+// (url.URL.ForceQuery - a bare trailing "?" -, Opaque, the raw path are lost). Clause: in the HTTP/2 client's
+// AppendHeaders a store to Request.URL that can run for an HTTP/2-sourced request (not under the isReqHeader == false
+// edge) installs a copy of the received URL (an object initialised with *req.URL), of which only single fields may then be
+// changed.
+func c01H2URLFromReceived(c *Ctx) {
+	fn := c.M("pkg/stream/http2", "clientStream", "AppendHeaders")
+	if fn == nil {
+		c.Unresolved("C01.R9", "pkg/stream/http2.clientStream.AppendHeaders")
+		return
+	}
+	n := 0
+	forEachInstr(fn, false, func(_ *ssa.Function, in ssa.Instruction) {
+		st, ok := in.(*ssa.Store)
+		if !ok {
+			return
+		}
+		tn, f, _, okf := fieldAddrInfo(st.Addr)
+		if !okf || f != "URL" || !strings.HasSuffix(tn, "net/http.Request") {
+			return
+		}
+		n++
+		key := fmt.Sprintf("%s:url-store#%d", funcKey(fn), n)
+		// only for requests that did not come from an HTTP/2 downstream?
+		fresh := false
+		for _, g := range guardsAt(st.Block()) {
+			if phi, isP := g.Cond.(*ssa.Phi); isP && !g.True {
+				allBool := true
+				for _, e := range phi.Edges {
+					if _, isB := constBool(e); !isB {
+						allBool = false
+					}
+				}
+				if allBool {
+					fresh = true
+				}
+			}
+		}
+		if fresh {
+			c.Pass("C01.R9", key, st.Pos(), "built from the variables for a request that did not come from an HTTP/2 downstream")
+			return
+		}
+		derived := false
+		if al, isA := st.Val.(*ssa.Alloc); isA {
+			for _, r := range refs(al) {
+				if s2, isS := r.(*ssa.Store); isS && s2.Addr == ssa.Value(al) {
+					if u, isU := s2.Val.(*ssa.UnOp); isU && u.Op == token.MUL {
+						if _, f2, _, ok2 := loadedField(u.X); ok2 && f2 == "URL" {
+							derived = true
+						}
+					}
+				}
+			}
+		}
+		c.Check("C01.R9", key, st.Pos(), derived, "a copy of the received URL (only single fields changed afterwards)", "the HTTP/2 client replaces the URL of a request that came from an HTTP/2 downstream by one composed anew from variables: what is not carried by them (a bare trailing '?', an opaque or raw form) is lost, so the forwarded :path is no longer the received one although no rewrite is configured")
+	})
+	if n < 1 {
+		c.Unresolved("C01.R9", "stores to Request.URL in the HTTP/2 client's AppendHeaders")
+	}
+}
